@@ -28,7 +28,9 @@ TraceSpec == TraceInit /\ [][TraceNext]_tvars
 Bad == CASE CHECK = "C28" -> C28Viol(Node)
          [] CHECK = "C29" -> C29Viol(Node) \cup (IF l = 1 THEN UNION {AggViol(Runs[run].agg[j]) : j \in 1..Len(Runs[run].agg)} ELSE {})
          [] CHECK = "C30" -> C30Viol(Node) \cup (IF l = 1 THEN LogicalViol(Runs[run].logical, Runs[run].root) ELSE {})
-         [] CHECK = "C53" -> C53Viol(Node)
+         [] CHECK = "C53" -> C53Viol(Node) \cup (IF l = 1 THEN AnalyzeViol(Runs[run].analyze)
+                                                       \cup UNION {SpillViol(Runs[run].spill[j]) : j \in 1..Len(Runs[run].spill)}
+                                                  ELSE {})
 
 Strict == Bad = {}
 Judge == Bad = {} \/ PrintT(<<"REJECT", ToJson([run |-> Runs[run].id, bad |-> Bad])>>)
